@@ -252,13 +252,24 @@ func runRPC12(d *Defs, svcKey, methodKey, payload string) string {
 		d, _ := strconv.Atoi(s)
 		return d
 	}
-	if dqS != "x" {
+	abs := func(s string) (uint, bool) { // "=N": the limit VALUE itself (16/32/63/64-bit edges)
+		if strings.HasPrefix(s, "=") {
+			v, _ := strconv.ParseUint(s[1:], 10, 64)
+			return uint(v), true
+		}
+		return 0, false
+	}
+	if v, ok := abs(dqS); ok {
+		tr.q = v
+	} else if dqS != "x" {
 		tr.q = uint(Q0 + delta(dqS, Q0))
 		if tr.q < 4 {
 			tr.q = 4
 		}
 	}
-	if drS != "x" && R0 > 0 {
+	if v, ok := abs(drS); ok {
+		tr.r = v
+	} else if drS != "x" && R0 > 0 {
 		tr.r = uint(R0 + delta(drS, R0))
 		if tr.r < 4 {
 			tr.r = 4
